@@ -23,7 +23,9 @@ CONSTANTS N,      \* number of sources
           TMPW,   \* sources that are unpacked through a named temp file
           SIG,    \* TRUE: the environment may deliver one SIGINT at any time
           SHAPES, \* set of script shapes sources may take
-          DROPFIRST \* TRUE: a worker drops its reader (temp file) before sending FileSummary
+          DROPFIRST, \* TRUE: a worker drops its reader (temp file) before sending FileSummary
+          REGATOMIC  \* TRUE: a temp file is created and listed under one NAMED_TEMP_FILES lock,
+                     \*       and the handler closes the list (no creation afterwards)
 
 W == 1..N
 
@@ -42,12 +44,13 @@ VARIABLES dts, shape,       \* ground truth (chosen in Init, never changes)
           recvErr, errs,    \* chan_recv_err, error_count
           ret,              \* return value of processing_loop (TRUE = exit status 0)
           disk, listed,     \* temp files on disk / paths in NAMED_TEMP_FILES
-          hpc,              \* handler pc: "idle","start","clear","remove","flag","done"
+          hpc,              \* handler pc: "idle","start","clear","ntf","remove","flag","done"
           exitEarly,        \* EXIT_EARLY
+          ntfClosed,        \* NAMED_TEMP_FILES_CLOSED
           exited            \* the process is gone (no thread takes a step)
 
 vars == <<dts, shape, wpc, wi, ri, closed, rdrop, live, pending, fi, fic, np, cpc, got,
-          recvErr, errs, ret, disk, listed, hpc, exitEarly, exited>>
+          recvErr, errs, ret, disk, listed, hpc, exitEarly, ntfClosed, exited>>
 
 -----------------------------------------------------------------------------
 SeqsUpTo(S, n) == UNION {[1..k -> S] : k \in 0..n}
@@ -72,7 +75,7 @@ InitRest ==
   /\ cpc = "loop" /\ got = <<0, 0>>
   /\ recvErr = 0 /\ errs = 0 /\ ret = TRUE
   /\ disk = {} /\ listed = {}
-  /\ hpc = "idle" /\ exitEarly = FALSE /\ exited = FALSE
+  /\ hpc = "idle" /\ exitEarly = FALSE /\ ntfClosed = FALSE /\ exited = FALSE
 
 Init ==
   /\ dts \in [W -> SeqsUpTo(DT, M)]
@@ -85,22 +88,36 @@ InChan(w) == wi[w] - ri[w]          \* only meaningful while w \in live
 -----------------------------------------------------------------------------
 (* Worker threads (exec_*processor)                                          *)
 
-\* decompress_to_ntf: tempfile created on disk
+\* the handler holds the NAMED_TEMP_FILES write lock from its removal pass to its end
+HandlerHoldsNtf == hpc \in {"remove", "flag"}
+\* a worker holds it between create and register when REGATOMIC
+WorkerHoldsNtf == REGATOMIC /\ \E v \in W : wpc[v] = "register"
+
+\* decompress_to_ntf: tempfile created on disk (REGATOMIC: under the lock, unless the list is closed)
 WCreate(w) ==
   /\ Alive /\ wpc[w] = "create"
+  /\ REGATOMIC => (~HandlerHoldsNtf /\ ~WorkerHoldsNtf /\ ~ntfClosed)
   /\ disk' = disk \cup {w}
   /\ wpc' = [wpc EXCEPT ![w] = "register"]
   /\ UNCHANGED <<dts, shape, wi, ri, closed, rdrop, live, pending, fi, fic, np, cpc, got,
-                 recvErr, errs, ret, listed, hpc, exitEarly, exited>>
+                 recvErr, errs, ret, listed, hpc, exitEarly, ntfClosed, exited>>
 
-\* path pushed to NAMED_TEMP_FILES (needs its write lock: the handler keeps it
-\* from its removal pass until the closure ends)
+\* REGATOMIC: after the handler's pass no file is created; the worker reports an open error
+WCreateRefused(w) ==
+  /\ Alive /\ wpc[w] = "create" /\ REGATOMIC /\ ntfClosed /\ ~HandlerHoldsNtf /\ ~WorkerHoldsNtf
+  /\ wpc' = [wpc EXCEPT ![w] = "run"]
+  /\ shape' = [shape EXCEPT ![w] = "fierr"]
+  /\ rdrop' = [rdrop EXCEPT ![w] = TRUE]
+  /\ UNCHANGED <<dts, wi, ri, closed, live, pending, fi, fic, np, cpc, got,
+                 recvErr, errs, ret, disk, listed, hpc, exitEarly, ntfClosed, exited>>
+
+\* path pushed to NAMED_TEMP_FILES (needs its write lock unless already held)
 WRegister(w) ==
-  /\ Alive /\ wpc[w] = "register" /\ hpc \notin {"remove", "flag"}
+  /\ Alive /\ wpc[w] = "register" /\ ~HandlerHoldsNtf
   /\ listed' = listed \cup {w}
   /\ wpc' = [wpc EXCEPT ![w] = "run"]
   /\ UNCHANGED <<dts, shape, wi, ri, closed, rdrop, live, pending, fi, fic, np, cpc, got,
-                 recvErr, errs, ret, disk, hpc, exitEarly, exited>>
+                 recvErr, errs, ret, disk, hpc, exitEarly, ntfClosed, exited>>
 
 \* reader (and its NamedTempFile) dropped
 WDrop(w) ==
@@ -109,7 +126,7 @@ WDrop(w) ==
   /\ rdrop' = [rdrop EXCEPT ![w] = TRUE]
   /\ disk' = disk \ {w}
   /\ UNCHANGED <<dts, shape, wpc, wi, ri, closed, live, pending, fi, fic, np, cpc, got,
-                 recvErr, errs, ret, listed, hpc, exitEarly, exited>>
+                 recvErr, errs, ret, listed, hpc, exitEarly, ntfClosed, exited>>
 
 \* chan_send: the datum enters the channel (blocks while full); if the receiver
 \* was dropped the send fails at once and the worker carries on
@@ -119,7 +136,7 @@ WSend(w) ==
   /\ (w \in live) => InChan(w) < CAP
   /\ wi' = [wi EXCEPT ![w] = @ + 1]
   /\ UNCHANGED <<dts, shape, wpc, ri, closed, rdrop, live, pending, fi, fic, np, cpc, got,
-                 recvErr, errs, ret, disk, listed, hpc, exitEarly, exited>>
+                 recvErr, errs, ret, disk, listed, hpc, exitEarly, ntfClosed, exited>>
 
 \* thread returns: sender dropped
 WReturn(w) ==
@@ -128,12 +145,12 @@ WReturn(w) ==
   /\ wpc' = [wpc EXCEPT ![w] = "ret"]
   /\ closed' = [closed EXCEPT ![w] = TRUE]
   /\ UNCHANGED <<dts, shape, wi, ri, rdrop, live, pending, fi, fic, np, cpc, got,
-                 recvErr, errs, ret, disk, listed, hpc, exitEarly, exited>>
+                 recvErr, errs, ret, disk, listed, hpc, exitEarly, ntfClosed, exited>>
 
 -----------------------------------------------------------------------------
 (* Coordinator (processing_loop)                                             *)
 
-WriteLocked == hpc \in {"clear", "remove", "flag"}   \* handler holds MAP write lock
+WriteLocked == hpc \in {"clear", "ntf", "remove", "flag"}   \* handler holds MAP write lock
 PendSet   == {w \in W : pending[w] # 0}
 MustRecv  == Cardinality(live) # Cardinality(PendSet) \/ ~fic
 Pollable  == {w \in live : pending[w] = 0}
@@ -143,14 +160,14 @@ CExitEarly ==
   /\ Alive /\ cpc = "loop" /\ exitEarly
   /\ cpc' = "done" /\ ret' = FALSE
   /\ UNCHANGED <<dts, shape, wpc, wi, ri, closed, rdrop, live, pending, fi, fic, np, got,
-                 recvErr, errs, disk, listed, hpc, exitEarly, exited>>
+                 recvErr, errs, disk, listed, hpc, exitEarly, ntfClosed, exited>>
 
 \* takes the read lock and enters select()
 CEnterSel ==
   /\ Alive /\ cpc = "loop" /\ ~exitEarly /\ MustRecv /\ ~WriteLocked
   /\ cpc' = "sel"
   /\ UNCHANGED <<dts, shape, wpc, wi, ri, closed, rdrop, live, pending, fi, fic, np, got,
-                 recvErr, errs, ret, disk, listed, hpc, exitEarly, exited>>
+                 recvErr, errs, ret, disk, listed, hpc, exitEarly, ntfClosed, exited>>
 
 \* select() returns a datum of w
 CDequeue(w) ==
@@ -159,7 +176,7 @@ CDequeue(w) ==
   /\ got' = <<w, ri[w] + 1>>
   /\ cpc' = "got"
   /\ UNCHANGED <<dts, shape, wpc, wi, closed, rdrop, live, pending, fi, fic, np,
-                 recvErr, errs, ret, disk, listed, hpc, exitEarly, exited>>
+                 recvErr, errs, ret, disk, listed, hpc, exitEarly, ntfClosed, exited>>
 
 \* select() returns RecvError for w: disconnected and empty
 CDisc(w) ==
@@ -167,14 +184,14 @@ CDisc(w) ==
   /\ got' = <<w, 0>>
   /\ cpc' = "got"
   /\ UNCHANGED <<dts, shape, wpc, wi, ri, closed, rdrop, live, pending, fi, fic, np,
-                 recvErr, errs, ret, disk, listed, hpc, exitEarly, exited>>
+                 recvErr, errs, ret, disk, listed, hpc, exitEarly, ntfClosed, exited>>
 
 \* recv_many_chan returns None (nothing to poll): break
 CNone ==
   /\ Alive /\ cpc = "sel" /\ Pollable = {}
   /\ cpc' = "after"
   /\ UNCHANGED <<dts, shape, wpc, wi, ri, closed, rdrop, live, pending, fi, fic, np, got,
-                 recvErr, errs, ret, disk, listed, hpc, exitEarly, exited>>
+                 recvErr, errs, ret, disk, listed, hpc, exitEarly, ntfClosed, exited>>
 
 FicAfter(f) == fic \/ \A w \in W : f[w]
 
@@ -194,7 +211,7 @@ CProcess ==
      /\ cpc' = IF live2 = {} THEN "after" ELSE "loop"
   /\ got' = <<0, 0>>
   /\ UNCHANGED <<dts, shape, wpc, wi, ri, closed, rdrop, np, ret, disk, listed, hpc,
-                 exitEarly, exited>>
+                 exitEarly, ntfClosed, exited>>
 
 \* coordinator's comparison: min_by over a BTreeMap keeps the first minimum
 Less(w, v) == MsgDt(w, pending[w]) < MsgDt(v, pending[v])
@@ -208,7 +225,7 @@ CPrint ==
        /\ pending' = [pending EXCEPT ![w] = 0]
   /\ cpc' = IF live = {} THEN "after" ELSE "loop"
   /\ UNCHANGED <<dts, shape, wpc, wi, ri, closed, rdrop, live, fi, fic, got,
-                 recvErr, errs, ret, disk, listed, hpc, exitEarly, exited>>
+                 recvErr, errs, ret, disk, listed, hpc, exitEarly, ntfClosed, exited>>
 
 \* after the loop: exit_early_check!, summary, return value
 CAfter ==
@@ -216,14 +233,14 @@ CAfter ==
   /\ cpc' = "done"
   /\ ret' = (~exitEarly /\ recvErr = 0 /\ errs = 0)
   /\ UNCHANGED <<dts, shape, wpc, wi, ri, closed, rdrop, live, pending, fi, fic, np, got,
-                 recvErr, errs, disk, listed, hpc, exitEarly, exited>>
+                 recvErr, errs, disk, listed, hpc, exitEarly, ntfClosed, exited>>
 
 \* main returns: the process exits, every other thread is killed where it is
 ProcExit ==
   /\ Alive /\ cpc = "done"
   /\ exited' = TRUE
   /\ UNCHANGED <<dts, shape, wpc, wi, ri, closed, rdrop, live, pending, fi, fic, np, cpc, got,
-                 recvErr, errs, ret, disk, listed, hpc, exitEarly>>
+                 recvErr, errs, ret, disk, listed, hpc, exitEarly, ntfClosed>>
 
 -----------------------------------------------------------------------------
 (* SIGINT and the ctrlc handler thread                                       *)
@@ -232,26 +249,35 @@ Sigint ==
   /\ SIG /\ Alive /\ hpc = "idle"
   /\ hpc' = "start"
   /\ UNCHANGED <<dts, shape, wpc, wi, ri, closed, rdrop, live, pending, fi, fic, np, cpc, got,
-                 recvErr, errs, ret, disk, listed, exitEarly, exited>>
+                 recvErr, errs, ret, disk, listed, exitEarly, ntfClosed, exited>>
 
 \* MAP_PATHID_CHANRECVDATUM.write(): waits for the coordinator's read guard
 HLock ==
   /\ Alive /\ hpc = "start" /\ cpc # "sel"
   /\ hpc' = "clear"
   /\ UNCHANGED <<dts, shape, wpc, wi, ri, closed, rdrop, live, pending, fi, fic, np, cpc, got,
-                 recvErr, errs, ret, disk, listed, exitEarly, exited>>
+                 recvErr, errs, ret, disk, listed, exitEarly, ntfClosed, exited>>
 
-\* map.clear(): every receiver is dropped; then NAMED_TEMP_FILES.write()
+\* map.clear(): every receiver is dropped
 HClear ==
   /\ Alive /\ hpc = "clear"
   /\ live' = {}
-  /\ hpc' = "remove"
+  /\ hpc' = "ntf"
   /\ UNCHANGED <<dts, shape, wpc, wi, ri, closed, rdrop, pending, fi, fic, np, cpc, got,
-                 recvErr, errs, ret, disk, listed, exitEarly, exited>>
+                 recvErr, errs, ret, disk, listed, exitEarly, ntfClosed, exited>>
 
+\* NAMED_TEMP_FILES.write(): waits for a worker that is between create and register
+HNtfLock ==
+  /\ Alive /\ hpc = "ntf" /\ ~WorkerHoldsNtf
+  /\ hpc' = "remove"
+  /\ UNCHANGED <<dts, shape, wpc, wi, ri, closed, rdrop, live, pending, fi, fic, np, cpc, got,
+                 recvErr, errs, ret, disk, listed, exitEarly, ntfClosed, exited>>
+
+\* the list is closed (REGATOMIC) and the listed files are removed
 HRemove ==
   /\ Alive /\ hpc = "remove"
   /\ disk' = disk \ listed
+  /\ ntfClosed' = REGATOMIC
   /\ hpc' = "flag"
   /\ UNCHANGED <<dts, shape, wpc, wi, ri, closed, rdrop, live, pending, fi, fic, np, cpc, got,
                  recvErr, errs, ret, listed, exitEarly, exited>>
@@ -261,13 +287,13 @@ HFlag ==
   /\ exitEarly' = TRUE
   /\ hpc' = "done"
   /\ UNCHANGED <<dts, shape, wpc, wi, ri, closed, rdrop, live, pending, fi, fic, np, cpc, got,
-                 recvErr, errs, ret, disk, listed, exited>>
+                 recvErr, errs, ret, disk, listed, ntfClosed, exited>>
 
 -----------------------------------------------------------------------------
-Worker(w) == WCreate(w) \/ WRegister(w) \/ WDrop(w) \/ WSend(w) \/ WReturn(w)
+Worker(w) == WCreate(w) \/ WCreateRefused(w) \/ WRegister(w) \/ WDrop(w) \/ WSend(w) \/ WReturn(w)
 Coord == CExitEarly \/ CEnterSel \/ (\E w \in W : CDequeue(w) \/ CDisc(w)) \/ CNone
          \/ CProcess \/ CPrint \/ CAfter \/ ProcExit
-Handler == HLock \/ HClear \/ HRemove \/ HFlag
+Handler == HLock \/ HClear \/ HNtfLock \/ HRemove \/ HFlag
 
 Next == (\E w \in W : Worker(w)) \/ Coord \/ Sigint \/ Handler
 
@@ -311,6 +337,10 @@ ChanBound == \A w \in live : InChan(w) <= CAP /\ ri[w] <= wi[w]
 
 \* C18: nothing is left on disk when the process is gone
 NoLeak == exited => disk = {}
+\* the three ways a file can survive, told apart (the driver runs each as its own invariant)
+NoLeakNormal       == (exited /\ hpc = "idle") => disk = {}
+NoLeakUnregistered == (exited /\ hpc # "idle") => disk \subseteq listed
+NoLeakRegistered   == (exited /\ hpc # "idle") => disk \cap listed = {}
 
 \* C06/C18 liveness
 Terminates == <>[](cpc = "done")
